@@ -131,6 +131,9 @@ def get_constants(filename):
     constants = Constants(False)
     with open(filename) as f:
         data = json.load(f)
+    # rMin and rMax reset rp to the middle of the domain. An explicit value
+    # must therefore be applied last, whatever the order of the keys
+    explicit_rp = data.pop('rp', None)
     unmatched = {}
     n = len(data)
     while (len(data) > 0):
@@ -148,6 +151,10 @@ def get_constants(filename):
         data, unmatched = unmatched, data
         assert len(data) < n
         n = len(data)
+    if (isinstance(explicit_rp, str)):
+        explicit_rp = eval_expr(explicit_rp, constants)
+    if (explicit_rp is not None):
+        constants.rp = explicit_rp
     constants.set_defaults()
     if (constants.CN0 is None):
         constants.getCN0()
